@@ -363,7 +363,7 @@ func TerminationCerts(p *Program, rels []string) []Cert {
 					if e.d == "D-" || rel == "D↓" {
 						e.d, e.dec = rel, dec
 					}
-				} else if isTreeType(par.Type()) && i > 0 || isTreeType(par.Type()) && sc.Signature.Recv() == nil {
+				} else if isTreeType(par.Type()) {
 					rel := treeRel(args[i], Outermost(fn))
 					// several tree parameters: the weakest relation counts
 					switch {
